@@ -19,6 +19,14 @@ pub fn stub_slice_error_fail_rt(_s: &str, _begin: usize, _end: usize) -> ! {
     panic!("str slice index out of range or not on a character boundary")
 }
 
+/// M10 (DESIGN.md 10.7): the two `&str`-pattern calls of `ml_literal_string`
+pub fn stub_contains_crlf<P>(s: &str, _pat: P) -> bool {
+    refmodel::models::contains_crlf(s)
+}
+pub fn stub_replace_crlf<P>(s: &str, _from: P, _to: &str) -> String {
+    refmodel::models::replace_crlf_with_lf(s)
+}
+
 /// M9 (DESIGN.md 10.3): `core::str::count::count_chars` -> refmodel::models::count_chars
 pub fn stub_count_chars(s: &str) -> usize {
     refmodel::models::count_chars(s)
